@@ -204,6 +204,21 @@ func locOrder(c *Ctx, a *flAgg) {
 			if !ok {
 				break
 			}
+			// the value the cursor starts with
+			var init ssa.Value
+			for i, e := range phi.Edges {
+				if !l.Body[phi.Block().Preds[i]] {
+					init = e
+				}
+			}
+			isLast := func(v ssa.Value) bool { // len(x) - 1
+				bo, ok := v.(*ssa.BinOp)
+				if !ok || bo.Op != token.SUB || bnLenOf(bo.X) == nil {
+					return false
+				}
+				k, isC := bnConst(bo.Y)
+				return isC && k == 1
+			}
 			for i, e := range phi.Edges {
 				if !l.Body[phi.Block().Preds[i]] {
 					continue
@@ -211,9 +226,17 @@ func locOrder(c *Ctx, a *flAgg) {
 				if bo, ok := e.(*ssa.BinOp); ok && bo.X == ssa.Value(phi) {
 					if k, isC := bnConst(bo.Y); isC && k == 1 {
 						if bo.Op == token.ADD {
-							up = true
+							if z, isC := bnConst(init); isC && z == 0 {
+								up = true
+							} else {
+								other = "the ascending cursor of the reversal does not start at 0"
+							}
 						} else if bo.Op == token.SUB {
-							down = true
+							if isLast(init) {
+								down = true
+							} else {
+								other = "the descending cursor of the reversal does not start at the last element"
+							}
 						}
 					}
 				}
@@ -228,7 +251,18 @@ func locOrder(c *Ctx, a *flAgg) {
 						if bo, ok := ia.Index.(*ssa.BinOp); ok && bo.Op == token.SUB {
 							if ph, ok := bo.Y.(*ssa.Phi); ok && ph.Block() == l.Header {
 								if xi, ok := bo.X.(ssa.Instruction); !ok || !l.Body[xi.Block()] {
-									down = true
+									// (len-1) - i
+									isLastV := false
+									if b2, ok := bo.X.(*ssa.BinOp); ok && b2.Op == token.SUB && bnLenOf(b2.X) != nil {
+										if k, isC := bnConst(b2.Y); isC && k == 1 {
+											isLastV = true
+										}
+									}
+									if isLastV {
+										down = true
+									} else {
+										other = "the mirror index of the reversal is not (len-1)-i"
+									}
 								}
 							}
 						}
@@ -390,13 +424,21 @@ func locSkip(c *Ctx, a *flAgg) {
 		}
 		n++
 		probes := 0
+		hit := false // a remote GOROOT/GOPATH root was recorded in this iteration
 		for _, ev := range p.Events {
+			if (ev.Kind == EvMapUpd && strings.Contains(ev.Addr.String(), "RemoteGOPATHs")) || (ev.Kind == EvStore && strings.HasSuffix(ev.Addr.String(), ".RemoteGOROOT")) {
+				hit = true
+			}
 			if ev.Kind != EvCall || ev.Val.Op != OpCall || ev.Val.Fn == nil {
 				continue
 			}
 			switch ev.Val.Fn.Name() {
 			case "isRootedIn", "isGoModule", "isFile":
 				probes++
+				if hit && ev.Val.Fn.Name() != "isRootedIn" {
+					okAll = false
+					why = "after a GOROOT/GOPATH root was recorded for the file, the module probes still run for it (" + ev.Val.Fn.Name() + "): a file below a GOPATH is also registered as a local module"
+				}
 			}
 		}
 		if probes > 0 {
@@ -408,8 +450,14 @@ func locSkip(c *Ctx, a *flAgg) {
 				continue
 			}
 			at := lt.Atom
-			if at.calleeIs(stackPkg, "hasSrcPrefix") || at.calleeIs(stackPkg, "hasPrefix") || (at.calleeIs("strings", "HasPrefix") && strings.Contains(at.String(), "RemoteGOROOT")) {
+			if at.calleeIs(stackPkg, "hasSrcPrefix") || at.calleeIs(stackPkg, "hasPrefix") {
 				explained = true
+			}
+			if at.calleeIs("strings", "HasPrefix") && strings.Contains(at.String(), "RemoteGOROOT") {
+				// ... under a remote GOROOT that was detected (not the empty string)
+				if empty, have := p.lit("(" + fn.Params[0].Name() + ".RemoteGOROOT == \"\")"); have && !empty {
+					explained = true
+				}
 			}
 		}
 		if !explained {
